@@ -7,6 +7,7 @@ package props
 import (
 	"bytes"
 	"encoding/binary"
+	"math"
 	"encoding/hex"
 	"encoding/json"
 	"fmt"
@@ -29,7 +30,7 @@ type c19Case struct {
 }
 
 const c19Rule = "case = buffer (0..64 octets, window into a sentinel-filled array so cap>len) + 1..40 reader operations " +
-	"(Uint8/16/32/64, Read n, Peek n, PeekUint16, Len, ReadCount; n in 0..len+8); " +
+	"(Uint8/16/32/64, Read n, Peek n, PeekUint16, Len, ReadCount; n in 0..len+8 and huge values up to MaxInt); " +
 	"non-trivial = a failed read is later followed by a successful read and the sequence has >=1 peek; distinct by hash of the case"
 
 func genC19(t *rapid.T) c19Case {
@@ -41,7 +42,10 @@ func genC19(t *rapid.T) c19Case {
 	for i := 0; i < nops; i++ {
 		op := c19Op{Op: rapid.SampledFrom(names).Draw(t, "op")}
 		if op.Op == "read" || op.Op == "peek" {
-			op.N = rapid.OneOf(rapid.IntRange(0, 9), rapid.IntRange(0, n+8)).Draw(t, "n")
+			op.N = rapid.OneOf(rapid.IntRange(0, 9), rapid.IntRange(0, n+8),
+				// lengths far beyond any buffer (a bounds check that adds to the length must not wrap)
+				rapid.SampledFrom([]int{255, 65535, 65536, 1 << 31, 1<<31 - 1, 1 << 32, math.MaxInt - 2, math.MaxInt - 1, math.MaxInt, math.MaxInt - 64}),
+			).Draw(t, "n")
 		}
 		c.Ops = append(c.Ops, op)
 	}
